@@ -1,2 +1,43 @@
-(* PropsC09.v — C09: results never depend on map iteration order. *)
-From Ucfg Require Import Base ParseInt Consts Field Tree PathOps Merge OTree VarParse Normalize.
+(* PropsC09.v — C09: results never depend on map iteration order.
+   Statements only; proofs are in ProofsNormalize.v.
+
+   Where an enumeration order exists in the model: a Go map given as input is the list of its
+   entries IN THE ORDER THE RUNTIME ENUMERATED THEM (gval, constructor GMap), at every depth.
+   The internal dictionaries of a Config are sorted association lists (Tree.v): they have one
+   representation, every loop of Merge.v / VarEval.v / Reify.v visits them in that order, and
+   the correspondence runs (first error reported, values of mutually referencing variables)
+   tie that to the implementation, which visits sorted keys since fix 18904c4. *)
+From Coq Require Import Permutation.
+From Ucfg Require Import Base ParseInt Consts Field Tree PathOps Merge VarParse Normalize ProofsNormalize.
+
+(* NewFrom / Merge of a map: any two enumerations of the same entries (pairwise distinct keys,
+   as in every Go map) give the same outcome - the same tree or the same error. *)
+Theorem c09_map_enumeration_order_irrelevant : forall o ok kvs kvs',
+  Permutation kvs kvs' -> NoDup (map fst kvs) ->
+  normalize o (GMap ok kvs) = normalize o (GMap ok kvs').
+Proof. exact normalize_map_order_irrelevant. Qed.
+Print Assumptions c09_map_enumeration_order_irrelevant.
+
+(* ... and the same for every map nested anywhere inside the input (maps in maps, maps in
+   lists), each enumerated in an order of its own. *)
+Theorem c09_nested_enumeration_orders_irrelevant : forall o g g',
+  gperm g g' -> normalize o g = normalize o g'.
+Proof. exact normalize_gperm. Qed.
+Print Assumptions c09_nested_enumeration_orders_irrelevant.
+
+(* the sorted visit is what makes it so: entries are visited by ascending name *)
+Theorem c09_visit_is_sorted : forall l, Sorted.StronglySorted key_le (kv_sort l).
+Proof. exact kv_sort_sorted. Qed.
+Print Assumptions c09_visit_is_sorted.
+
+(* non-vacuity: an input with overlapping keys, whose outcome DID depend on the order before
+   the fix, has one outcome under both enumerations *)
+Theorem c09_overlapping_keys_example :
+  let o := {| n_p := {| p_sep := "."; p_maxIdx := 1024; p_numKeys := false; p_escape := false |};
+              n_varexp := false; n_m := {| m_h := 0%N; m_ft := None |} |} in
+  normalize o (GMap true [(KStr "a.b", GUint 1); (KStr "a", GMap true [(KStr "b", GUint 2)])])
+  = normalize o (GMap true [(KStr "a", GMap true [(KStr "b", GUint 2)]); (KStr "a.b", GUint 1)])
+  /\ normalize o (GMap true [(KStr "a.b", GUint 1); (KStr "a", GMap true [(KStr "b", GUint 2)])])
+     = Err EDuplicateKey "a.b".
+Proof. exact sorted_visit_example. Qed.
+Print Assumptions c09_overlapping_keys_example.
